@@ -96,6 +96,7 @@ let model line =
       | Some l -> let l = List.map iz l in l @ List.filteri (fun i _ -> i >= List.length l) fill in
     Printf.sprintf "%d %s" (iz r) (hex_of_bytes content)
   | ["S"; cp] -> string_of_int (iz (u8_seqlen (zi (int_of_string cp))))
+  | ["W"; cp] -> (match u8_wcwidth (zi (int_of_string cp)) with Some w -> string_of_int (iz w) | None -> "FUEL")
   | _ -> failwith "case"
 
 (* ---- oracle ---- *)
@@ -187,6 +188,9 @@ let oracle line =
        | _ -> false)
     | ["S"; cp] ->
       (match ints o with [v] -> v = iz (u8_seqlen (zi (int_of_string cp))) | _ -> false)
+    | ["W"; cp] ->
+      (* where the library documents a width (Utf8Spec.documented_widths) it must be that one *)
+      (match ints o with [w] -> width_checkb (zi (int_of_string cp)) (zi w) | _ -> false)
     | _ -> false in
   if ok then "OK" else "BAD"
 
